@@ -90,7 +90,23 @@ func runLoadSeq(c Case) interface{} {
 		case "render":
 			results = append(results, renderResult(eng.Render(context.Background(), op["name"].(string), nil)))
 		case "write":
+			// "mtime": how the new content arrives - "" an ordinary edit (now), "keep" the file keeps the modification time it
+			// had (cp -p, rsync -t, a restore tool), "old" an older file is moved in (mv page.bak page, tar x, git checkout of a tag)
+			p := filepath.Join(eng.Dir, "template", "page", op["name"].(string)+".ast.json")
+			var before time.Time
+			if fi, err := os.Stat(p); err == nil {
+				before = fi.ModTime()
+			}
 			writeTpl(eng.Dir, op["name"].(string), op["content"].(string))
+			switch op["mtime"] {
+			case "keep":
+				if !before.IsZero() {
+					os.Chtimes(p, before, before)
+				}
+			case "old":
+				t := time.Date(2001, 2, 3, 4, 5, 6, 0, time.UTC)
+				os.Chtimes(p, t, t)
+			}
 			results = append(results, "done")
 		case "break":
 			p := filepath.Join(eng.Dir, "template", "page", op["name"].(string)+".ast.json")
@@ -313,7 +329,7 @@ func genC10(r *Rng, n int, tier string, emit func(Case)) {
 				case 7:
 					ver++
 					nm := present[rr.Intn(len(present))]
-					ops = append(ops, J{"op": "write", "name": nm, "content": fmt.Sprintf("v%d-%s", ver, nm)}) // repair
+					ops = append(ops, J{"op": "write", "name": nm, "content": fmt.Sprintf("v%d-%s", ver, nm), "mtime": []string{"", "", "keep", "old"}[rr.Intn(4)]}) // repair / replace
 				default:
 					if rr.Chance(1, 3) {
 						// the asset manifest next to the templates: valid, truncated, not JSON at all, or gone
@@ -323,7 +339,50 @@ func genC10(r *Rng, n int, tier string, emit func(Case)) {
 					}
 				}
 			}
-			emit(Case{"kind": "loadseq", "debug": debug, "files": files, "ops": ops, "bucket": fmt.Sprintf("seq/debug=%t", debug), "nops": len(ops)})
+			bucket := fmt.Sprintf("seq/debug=%t", debug)
+			if i%8 == 2 {
+				// directed histories around a broken file: whichever load meets it first (complete or filtered, explicit or the one a
+				// render starts), the engine must load again once the file is repaired; replaced files must show their content
+				p := present[rr.Intn(len(present))]
+				filt := func() string {
+					switch rr.Intn(4) {
+					case 0:
+						return ""
+					case 1:
+						return p
+					case 2:
+						return p[:rr.Range(1, len(p))]
+					}
+					return strings.Split(p, "/")[0]
+				}
+				ops = nil
+				if rr.Bool() {
+					ops = append(ops, J{"op": "render", "name": anyName()})
+				}
+				ops = append(ops, J{"op": "break", "name": p})
+				for k := 0; k < rr.Range(1, 2); k++ {
+					if rr.Bool() {
+						ops = append(ops, J{"op": "load", "filter": filt()})
+					} else {
+						ops = append(ops, J{"op": "render", "name": anyName()})
+					}
+				}
+				ver++
+				ops = append(ops, J{"op": "write", "name": p, "content": fmt.Sprintf("v%d-%s", ver, p), "mtime": []string{"", "keep", "old"}[rr.Intn(3)]})
+				for k := 0; k < rr.Range(1, 3); k++ {
+					switch rr.Intn(3) {
+					case 0:
+						ops = append(ops, J{"op": "load", "filter": filt()})
+					case 1:
+						ops = append(ops, J{"op": "render", "name": p})
+					default:
+						ops = append(ops, J{"op": "render", "name": anyName()})
+					}
+				}
+				ops = append(ops, J{"op": "render", "name": p})
+				bucket = fmt.Sprintf("seq-broken/debug=%t", debug)
+			}
+			emit(Case{"kind": "loadseq", "debug": debug, "files": files, "ops": ops, "bucket": bucket, "nops": len(ops)})
 		} else {
 			// concurrent first renders (and optionally an explicit load) on a cold engine
 			k := rr.Range(2, 3)
